@@ -149,8 +149,8 @@ impl Monitor for C13 {
     }
     fn plan(&self, tier: &Tier, seed: u64) -> Vec<Chunk> {
         let mut v = split_chunks("pin", 0, c13_pins().len() as u64, c13_pins().len() as u64, 2);
-        v.extend(plan_corpus(tier, seed, "C13", 6_000, 60_000));
-        let nm = if *tier == Tier::Quick { 20_000 } else { 200_000 };
+        v.extend(plan_corpus(tier, seed, "C13", 10_000, 100_000));
+        let nm = if *tier == Tier::Quick { 60_000 } else { 400_000 };
         v.extend(split_chunks("mutant", seed_offset(seed, "C13m", 400_000), nm, 400_000, 400));
         v
     }
@@ -339,7 +339,7 @@ impl Monitor for C04 {
         vec!["asm() statements of the corpus carry a marker comment and their declared size is read back from the source text".into()]
     }
     fn plan(&self, tier: &Tier, seed: u64) -> Vec<Chunk> {
-        plan_corpus(tier, seed, "C04", 6_000, 60_000)
+        plan_corpus(tier, seed, "C04", 10_000, 100_000)
     }
     fn run_case(&self, kind: &str, idx: u64) -> CaseResult {
         let (p, o) = corpus_program(kind, idx);
